@@ -11,7 +11,7 @@ from botocore.exceptions import (
     ResponseStreamingError,
 )
 
-RESERVED = {'site', 'nth', 'when', 'exc', 'at', 'id', 'amount', 'short',
+RESERVED = {'site', 'nth', 'when', 'exc', 'at', 'id', 'amount', 'short', 'sticky',
             'points', 'reenter', 'note'}
 
 
